@@ -94,7 +94,17 @@ func (c *wsConnection) subscribe(ctx context.Context, id string, req *common.Req
 	c.subs[id] = handler
 	c.subsMu.Unlock()
 
-	subscribeCtx, subscribeCancel := context.WithTimeout(ctx, c.writeTimeout)
+	// The frame goes out on the shared connection, and coder/websocket closes the
+	// whole connection when the context of a write ends. The write therefore runs
+	// on the connection's context (like ping/pong), never on the subscriber's own:
+	// its cancellation must not tear the connection down under the other
+	// subscriptions. The caller's context is only honoured before the write.
+	if err := ctx.Err(); err != nil {
+		c.removeSub(id)
+		return nil, err
+	}
+
+	subscribeCtx, subscribeCancel := context.WithTimeout(c.ctx, c.writeTimeout)
 	defer subscribeCancel()
 
 	if err := c.protocol.Subscribe(subscribeCtx, c.conn, id, req); err != nil {
